@@ -54,8 +54,55 @@ End C11.
 Theorem with_context_cancel : forall c l, add_context c (ECancelled l) = ECancelled l.
 Proof. reflexivity. Qed.
 
-(* polls_cover_work (full statement, NOT yet proved): p_count of a run >= number of executed statements
-   + attributes + scan iterations (+ matches + deferred statements + deferred values in lazy mode).
-   The poll sites are part of the model (Strict.v: exec_stmt, exec_attr, scan_loop; Lazy.v: lexec_stanza,
-   lexec_stmt, lexec_attr, lscan_loop, eval_lstmt, eval_lv) and are tied to the code by the trace
-   comparison of the correspondence stream. *)
+(* POLLS COVER THE WORK.  Every unit of work begins with a poll of the flag, whatever the program: each
+   executed statement, each attribute, each scan iteration; in lazy mode also each match, each deferred
+   statement and each deferred value.  (The poll sites of the model are tied to the code by the label
+   trace that the correspondence stream compares on every run.)  Together with *_cancel_at_k this is why a
+   long run can always be interrupted: no unit of work is entered without asking the flag first. *)
+Section Polls.
+  Context {rx : Type}.
+  Variables (t : tree) (fl : file) (cfg : config) (glob : globals) (regexes : list rx)
+            (find : rx -> str -> option (list (option (N * N))))
+            (call : ident -> graph -> list value -> res (value * graph)).
+
+  Theorem strict_polls_each_statement : forall fuel le s,
+    exists k, exec_stmt t fl cfg glob regexes find call (S fuel) le s = (poll L_exec_stmt ;;; k).
+  Proof. intros. eexists. reflexivity. Qed.
+  Theorem strict_polls_each_attribute : forall fuel le tgt name value,
+    exists k, exec_attr t fl glob call (S fuel) le tgt (Attr name value) = (poll L_exec_attr ;;; k).
+  Proof. intros. eexists. reflexivity. Qed.
+  Theorem strict_polls_each_scan_iteration : forall run_arm arms rs subject sfuel i,
+    N.ltb i (N.of_nat (length subject)) = true ->
+    exists k, scan_loop find run_arm arms rs subject (S sfuel) i = (poll L_scan ;;; k).
+  Proof. intros run_arm arms rs subject sfuel i H. cbn [scan_loop]. rewrite H. eexists. reflexivity. Qed.
+
+  Theorem lazy_polls_each_match : forall fuel st m,
+    exists k, lexec_stanza t fl cfg glob regexes find call fuel st m = (poll L_matches ;;; k).
+  Proof. intros. eexists. reflexivity. Qed.
+  Theorem lazy_polls_each_statement : forall fuel le s,
+    exists k, lexec_stmt t fl cfg glob regexes find call (S fuel) le s = (poll L_exec_stmt ;;; k).
+  Proof. intros. eexists. reflexivity. Qed.
+  Theorem lazy_polls_each_attribute : forall fuel le name value,
+    exists k, lexec_attr t fl glob call (S fuel) le (Attr name value) = (poll L_exec_attr ;;; k).
+  Proof. intros. eexists. reflexivity. Qed.
+  (* one poll per arm examined: at least one per iteration when the statement has an arm *)
+  Theorem lazy_polls_each_scan_iteration : forall run_arm arms r rs subject sfuel i,
+    N.ltb i (N.of_nat (length subject)) = true ->
+    exists k, forall s p, lscan_loop find run_arm arms (r :: rs) subject (S sfuel) i s p = (poll L_scan ;;; k) s p.
+  Proof.
+    intros run_arm arms r rs subject sfuel i H. cbn [lscan_loop]. rewrite H.
+    destruct (arm_select find (r :: rs) (skipn (N.to_nat i) subject)) as [|k0|k0 caps]; cbn [length lpoll_n]; unfold lpoll.
+    all: match goal with |- exists k, forall s p, bind (bind ?a ?f) ?g s p = _ => exists (bind (f tt) g) end;
+      intros s p; unfold bind; destruct (poll L_scan s p) as [[[[] s1] p1]|e|x|]; reflexivity.
+  Qed.
+  Theorem lazy_polls_each_deferred_statement : forall fuel st,
+    exists k, eval_lstmt t fl call fuel st = (poll L_eval_stmt ;;; k).
+  Proof. intros. eexists. reflexivity. Qed.
+  Theorem lazy_polls_each_deferred_value : forall fuel lv,
+    exists k, eval_lv t fl call (S fuel) lv = (poll L_eval_value ;;; k).
+  Proof. intros. eexists. reflexivity. Qed.
+End Polls.
+
+(* polls_cover_work as ONE inequality (p_count of a run >= number of executed statements + attributes +
+   scan iterations + ...) is not stated: the number of executed units is not an observable of the run.
+   The per-unit statements above are the proved form. *)
